@@ -307,7 +307,7 @@ PROPS = {
                         "contains_borrowed_key / maps_borrowed_key_to_value / get_key_value for &str keys look up as_static(q)",
                         "assumed: Bump::alloc_str returns a &str with the same content; InternedStr pointer equality is modelled as content equality (sound while each name is allocated once, which the debug_assert obligations establish)",
                         "the account use site ctx.accounts.ensure in add_transaction is verified under C01-C03 against the same interface (ctx_stub.rs)"],
-        "not_decided": ["that reports print canonical names (Display / iterator code)"],
+        "not_decided": ["that the report printers go through Account::as_str / Commodity::as_str (Display code; the listing of accounts keeps canonical entries only: slice of all_accounts_unsorted)"],
     },
     "C20": {
         "level": "proof",
